@@ -84,7 +84,7 @@ theorem pm_congr {cx : Cx} {mc : M (List LItem)} {t1 t2 : Nat → Src.B → Src.
   fun s items s' hs => pieceOK_congr (h s items s' hs) e
 
 /-- a halting control statement is the op of its name -/
-theorem ctl_simple (cx : Cx) (fuel : Nat) (env : Src.Env) (he : PlainEnv env) (nm sn : String) (st : Src.Stmt)
+theorem ctl_simple (cx : Cx) (fuel : Nat) (env : Src.Env) (he : EnvOK cx env) (nm sn : String) (st : Src.Stmt)
     (hn : nameOK nm = true) (hf : Beh.endsFlow nm = true) (hnm : nm = sn)
     (htr : ∀ k b, Src.tr fuel [] env st k b = b.push (.halt ⟨sn, []⟩)) {s : St} {items : List LItem} {s' : St}
     (h : opStmt nm [] s = .ok (items, s')) :
@@ -96,7 +96,7 @@ theorem ctl_simple (cx : Cx) (fuel : Nat) (env : Src.Env) (he : PlainEnv env) (n
   simp [hf, he.1, substEv_nil, convParams]
 
 /-- an op under a context: inline context, or a with-block -/
-theorem ctx_pm (cx : Cx) (fuel : Nat) (env : Src.Env) (he : PlainEnv env) (c : String) (cp : ESV.Param) (n : String) (ps : List ESV.Param)
+theorem ctx_pm (cx : Cx) (fuel : Nat) (env : Src.Env) (he : EnvOK cx env) (c : String) (cp : ESV.Param) (n : String) (ps : List ESV.Param)
     (hc : isCtx c = true) (hn : nameOK n = true) (inner : Src.Stmt)
     (hspec : ∀ k b, Src.afterCtxSpecial env inner k b = some (b.push (.emit ⟨n, convParams ps⟩ k)))
     {mc : M (List LItem)}
@@ -136,7 +136,7 @@ theorem patchNone_if (e : Nat) (c : Bool) (l : List LItem) : patchNone e (if c t
   cases c <;> rfl
 
 /-- the statements of F0 never look at the exits -/
-theorem simple_c (cx : Cx) (fuel : Nat) : ∀ (st : Stmt) (lb : Nat), cgSimple st = true → ∀ (env : Src.Env), PlainEnv env →
+theorem simple_c (cx : Cx) (fuel : Nat) : ∀ (st : Stmt) (lb : Nat), cgSimple st = true → ∀ (env : Src.Env), EnvOK cx env →
     ∀ (s : St) (items : List LItem) (s' : St), cStmt [] lb st s = .ok (items, s') →
     SimpleOK cx items (fun k b => Src.tr fuel [] env (toSrcStmt st) k b) ∧ s'.loops = s.loops ∧ s'.cases = s.cases
   | .op n ps, lb, hg, env, he => by
@@ -195,7 +195,7 @@ theorem simple_c (cx : Cx) (fuel : Nat) : ∀ (st : Stmt) (lb : Nat), cgSimple s
   | .for_ .., _, hg, _, _ => by simp [cgSimple] at hg
   | .macroCall .., _, hg, _, _ => by simp [cgSimple] at hg
 
-theorem simple_pm (cx : Cx) (fuel : Nat) (st : Stmt) (lb : Nat) (hg : cgSimple st = true) (env : Src.Env) (he : PlainEnv env) :
+theorem simple_pm (cx : Cx) (fuel : Nat) (st : Stmt) (lb : Nat) (hg : cgSimple st = true) (env : Src.Env) (he : EnvOK cx env) :
     PM cx (cStmt [] lb st) (fun k b => Src.tr fuel [] env (toSrcStmt st) k b) env := by
   intro s items s' h
   obtain ⟨a, b, c⟩ := simple_c cx fuel st lb hg env he s items s' h
